@@ -357,8 +357,7 @@ theorem applyRes_sim (cfg : Cfg) {pol : Policy} (hpol : TimeFree pol) (step : Na
     rw [retryDecision_timeFree cfg hpol step (failedAt - a.exec.firstAt) (failedAt - b.exec.firstAt), e5]
     cases retryDecision cfg pol step (failedAt - b.exec.firstAt) (b.exec.attempts + 1) exc with
     | retry d => exact ⟨h.st, by simp [List.map_append, h.cmds, cE], h.out, h.still, h.exec⟩
-    | raise => exact ⟨h.st, by simp [List.map_append, h.cmds, cE], h.out, h.still, h.exec⟩
-    | stop =>
+    | raise | stop =>
       simp only
       cases handlerOwner cfg step with
       | none =>
